@@ -120,4 +120,43 @@ theorem list_is_merged_listing {l : LocalDB} {s : Spec} (h : Refines l s) (pfx k
   rw [list_spec h pfx key count dir hq]
   exact this.symm
 
+/-! ### read-only mode -/
+
+/-- **Read-only `LocalDB`** (`NewLocalDB(maindb, true)`, used for transaction checks): whatever is
+called — `Begin`/`Commit`/`Rollback` included — every read, listing and count is answered from the
+base database exactly as the specification state with no overlay and no transaction answers it,
+the base is never changed, and `Set` is the explicit `panic` outcome. -/
+theorem readonly_answers_from_base {main : Map} (hs : Sorted main) (l : RoLocalDB) (hl : l.main = main)
+    (op : Op) (hp : op.okPrefix) :
+    (l.step op).1.main = main
+    ∧ (l.step op).2 = (match op with
+                       | .set _ _ => Out.panic
+                       | _ => (Spec.new main).out op) := by
+  have hmerged : (Spec.new main).merged = mergeMaps [main] := by
+    simp [Spec.merged, Spec.new, Spec.view, mergeMaps, munion]
+  have hsl : ∀ m ∈ [main], Sorted m := by intro m hm; simp at hm; rw [hm]; exact hs
+  cases op with
+  | begin => exact ⟨hl, rfl⟩
+  | commit => exact ⟨hl, rfl⟩
+  | rollback => exact ⟨hl, rfl⟩
+  | set k v => exact ⟨hl, rfl⟩
+  | get k =>
+    refine ⟨hl, ?_⟩
+    simp only [RoLocalDB.step, Spec.out, RoLocalDB.get, Spec.get, Spec.rawGet, Spec.new, Spec.view, hl]
+    have : List.findSome? (fun m => C06.get m k) ([] ++ [[], main]) = C06.get main k := by
+      simp only [List.nil_append, findSome2, get_nil, Option.none_or]
+    rw [this]
+  | list p k c d =>
+    refine ⟨hl, ?_⟩
+    simp only [RoLocalDB.step, Spec.out, hl]
+    rw [listMerged_spec hsl p k c d hp, hmerged]
+  | count p =>
+    refine ⟨hl, ?_⟩
+    simp only [RoLocalDB.step, Spec.out, hl]
+    rw [countMerged_spec hsl p hp, hmerged]
+
+example : ((RoLocalDB.new [([0x61], [1]), ([0x62], [])]).step (.set [0x61] [9])).2 = Out.panic
+    ∧ ((RoLocalDB.new [([0x61], [1]), ([0x62], [])]).step (.get [0x62])).2 = Out.val none
+    ∧ ((RoLocalDB.new [([0x61], [1]), ([0x62], [])]).step (.count [])).2 = Out.num (some 1) := by decide
+
 end C08
